@@ -59,6 +59,10 @@ def run(case, prop):
     def L(n):
         return led.get(id(n), EMPTY)
 
+    sparse = bool(case.get("sparse"))  # long runs: the all-cells rules only around powers of two and every 250th round
+    prevU = {}
+    prev_round = -1
+
     R.reset_cache()
     try:
         with Session(case) as s:
@@ -186,12 +190,24 @@ def run(case, prop):
                 else:
                     not_expanded += 1
                 # -------------------------------------------------- C05 (a), (b): U and B rules
-                if C5:
+                dense_round = (not sparse) or t % 250 == 0 or t == T or any(abs(t - (1 << k)) <= 3 for k in range(4, 40))
+                if C5 and dense_round:
                     p2 = R.last_pow2(t)
+                    credited = set(id(x) for x in ([cell] + ancestors(cell) if name == "T_HOO" else [cell]))
+                    refresh_ok = R.tplus(t) == t or R.tplus(t + 1) == t + 1
+                    had_prev = prev_round == t - 1
                     for n in iter_tree(root):
                         h = n.get_depth()
                         ln = L(n)
                         u = n.get_u_value()
+                        # delta~ is recomputed only when the round counter reaches a power of two: the U-value of a
+                        # cell that was not pulled must not move in any other round
+                        if had_prev and id(n) not in credited and not refresh_ok:
+                            pu = prevU.get(id(n))
+                            if pu is not None and not (pu == u):
+                                raise Violation("U-stable", "%s %s was not pulled in round %d (not a power of two) but its U moved %r -> %r" % (
+                                    name, lab(n), t, pu, u), t)
+                        prevU[id(n)] = u
                         if name == "T_HOO":
                             want = [R.u_thoo(ln, p, h)]
                         elif not ln:
@@ -213,6 +229,7 @@ def run(case, prop):
                             mb = max(c.get_b_value() for c in ch)
                             if not (b == min(u, mb)):
                                 raise Violation("B-rule", "internal %s: B=%r, min(U=%r, max child B=%r)" % (lab(n), b, u, mb), t)
+                    prev_round = t
             T = case["T"]
             if C5:
                 nt = T >= 10 and rich_steps >= 2 and (name == "T_HOO" or refreshes >= 1)
